@@ -49,7 +49,7 @@ ASSUMPTIONS = [
     "nothing requires a backup to be launched: an input whose only submission exhausts its retries must raise; a raise for input i "
     "is judged legitimate iff no submission of i made so far succeeded or is still pending and scripted to succeed",
     "tier B: threads executor only, default retries=2, one faulted chunk key that exactly one task touches; a watchdog expiry is "
-    "reported as a harness error / 'inconclusive', never as a violation",
+    "counted as 'inconclusive', never as a violation",
 ]
 
 FAST = "fast"
@@ -601,7 +601,7 @@ def check_fault(case) -> Outcome:
         return arr.compute(executor=ex, optimize_graph=og, callbacks=cbs)
 
     # discovery run (fault-free) on the same lazy array => same array names / keys in the faulted run
-    st, r0 = _with_watchdog(compute, 120)
+    st, r0 = _with_watchdog(compute, 600)
     if st == "timeout":
         return Outcome(labels=("B:inconclusive-watchdog",), failures=(), excluded=0)
     if st == "exc":
@@ -623,7 +623,7 @@ def check_fault(case) -> Outcome:
     f = case["f"]
     store.state.faults[(op, key)] = f
     counter = _CountTasks()
-    st, r = _with_watchdog(lambda: compute([counter.cb]), 120)
+    st, r = _with_watchdog(lambda: compute([counter.cb]), 600)
     store.state.faults.clear()
     if st == "timeout":
         return Outcome(labels=tuple(labels | {"B:inconclusive-watchdog"}))
@@ -743,7 +743,9 @@ def run_shard(spec, seed, tier) -> Acc:
         def body(case):
             out = check_fault(case)
             if "B:inconclusive-watchdog" in out.labels:
-                acc.errors.append(f"tier B watchdog expired (inconclusive, not a violation): {case}")
+                # a budget hit is inconclusive, never a violation and never a harness error (a loaded machine must not
+                # turn the check red): it is only counted
+                acc.bump("tierB_watchdog_expired_inconclusive")
             return out
 
         core.hyp_run(fault_cases(), body, seed=seed, max_examples=spec["n"], acc=acc,
